@@ -86,6 +86,37 @@ def main(a):
             for prop in meta.get("check_with", [meta["property"]]):
                 r = run_one(prop, os.path.join(d, "patch.diff"), tier); results.append(r)
                 print("%-8s %-14s %-4s suite=%s exit=%s %ss %s" % (r["status"], i, prop, r.get("suite"), r.get("check_exit"), r.get("wall"), r.get("first", r.get("detail", ""))[:160]), flush=True)
+    elif a[0] == "all":
+        # every hand mutant and every seeded change against the quick tier; whatever the quick tier misses is re-run
+        # against the thorough tier; writes mutants/RESULTS.md
+        rows = []
+        for prop in sorted(os.listdir(os.path.join(ROOT, "mutants"))):
+            if not os.path.isdir(os.path.join(ROOT, "mutants", prop)):
+                continue
+            for p in sorted(glob.glob(os.path.join(ROOT, "mutants", prop, "*.patch"))):
+                rows.append(("hand", os.path.basename(p)[:-6], prop, p, ""))
+        for i in sorted(os.listdir(os.path.join(ROOT, "seeded"))):
+            d = os.path.join(ROOT, "seeded", i)
+            meta = json.load(open(os.path.join(d, "meta.json")))
+            for prop in meta.get("check_with", [meta["property"]]):
+                rows.append(("seeded", i, prop, os.path.join(d, "patch.diff"), meta.get("needs_to_manifest", "")))
+        out = ["# Sensitivity results", "", "Generated by `tools/mut.py all` on /repo @ %s.  Every change compiles and keeps the repository's own 46 tests green (column suite)." % sh(["git", "rev-parse", "--short", "HEAD"], cwd=REPO)[1].strip(),
+               "hand = single-edit mutant written with the check's author knowing the check; seeded = change made by an independent sub-agent that saw only the property text.", "",
+               "| property | change | origin | suite | quick tier | thorough tier | first deviation signature | needs |", "|---|---|---|---|---|---|---|---|"]
+        for kind, name, prop, patch, needs in rows:
+            r = run_one(prop, patch, "quick"); results.append(r)
+            th = ""
+            if r["status"] != "caught":
+                r2 = run_one(prop, patch, "thorough"); results.append(r2)
+                th = r2["status"]
+                if r2["status"] == "caught":
+                    r["first"] = r2.get("first", "")
+            sig = r.get("first", "")
+            sig = sig[sig.find("sig="):][:90] if "sig=" in sig else ""
+            print("%-8s %-8s %-40s %s %s" % (r["status"], th, name, prop, sig), flush=True)
+            out.append("| %s | %s | %s | %s | %s | %s | `%s` | %s |" % (prop, name, kind, r.get("suite"), r["status"], th, sig.replace("|", "\\|"), needs.replace("|", "/")))
+        n = len(rows); cq = sum(1 for l in out[7:] if "| caught |" in l.split("| pass ")[-1][:12] or "| caught |" in l)
+        open(os.path.join(ROOT, "mutants", "RESULTS.md"), "w").write("\n".join(out) + "\n")
     os.makedirs(os.path.join(ROOT, "mutants"), exist_ok=True)
     with open(os.path.join(ROOT, "mutants", "last_run.jsonl"), "a") as f:
         for r in results:
